@@ -21,7 +21,8 @@ CLASS_REPS = {"NUL": "\0", "TAB": "\t", "LF": "\n", "CR": "\r", "CTRL": "\x01", 
               "DQ": '"', "SQ": "'", "BS": "\\", "LS": " ", "PS": " ", "BOM": "﻿", "ZWJ": "‍", "COMBINING": "é",
               "BMP": "\u5b57", "PUA": "\ue000", "ASTRAL": "😀", "MAXCP": "\U0010ffff", "LT": "<", "AMP": "&", "GT": ">", "LBRACE2": "{{",
               "RBRACE2": "}}", "DOLLAR": "${x}", "BACKTICK": "`", "NULDIGIT": "\x007", "SPACE": " a ", "PERCENT": "%41", "SEMI": ";",
-              "SLASHSTAR": "/*x*/", "ENDSCRIPT": "</script>", "ASCII": "Az09_"}
+              "SLASHSTAR": "/*x*/", "ENDSCRIPT": "</script>", "ASCII": "Az09_",
+              "NAMEDDIGITS": "\u00bd\u00b2\u2234\u2591"}      # characters whose reference names contain digits (frac12, sup2, there4, blk14)
 
 
 def spellings_html(s, rnd):
@@ -39,7 +40,8 @@ def spellings_html(s, rnd):
         if mode == "hex0":
             return "&#x%09X;" % o
         if mode == "named":
-            return {"<": "&lt;", ">": "&gt;", "&": "&amp;", '"': "&quot;", "'": "&apos;", "\xa0": "&nbsp;"}.get(ch, "&#%d;" % o)
+            return {"<": "&lt;", ">": "&gt;", "&": "&amp;", '"': "&quot;", "'": "&apos;", "\xa0": "&nbsp;", "\u00bd": "&frac12;", "\u00b2": "&sup2;",
+                    "\u2234": "&there4;", "\u2591": "&blk14;"}.get(ch, "&#%d;" % o)
     out = {}
     for mode in ("raw", "dec", "hex", "named", "dec0", "hex0"):
         t = "".join(esc(c, mode) for c in s)
